@@ -86,6 +86,9 @@ def to_array(x, cfg=None):
         # 0/1 data arrive as whatever the caller's pipeline produced: int64, or a narrow type (uint8 / int8 / int32 / bool
         # marks) whose running total does not fit the type itself
         return _np.array([int(v) for v in x], dtype=(int if dt is True else dt))
+    if cfg is not None and cfg.get("float_dtype"):
+        # single-precision samples (data read from a compact file, or produced on a GPU): the values are the same numbers
+        return _np.array(x, dtype=cfg["float_dtype"])
     return _np.array(x, dtype=float)
 
 
